@@ -201,7 +201,12 @@ func (cr *cacheRun) take(k string, fail bool) {
 		if gotErr == nil {
 			cr.viol("C16/cache/take/load-error-swallowed", fmt.Sprintf("Take(%s): the loader failed but Take returned (%v, nil)", k, gotV))
 		}
-		// nothing may have been cached: the model is unchanged, the next Get/sweep decides
+		// nothing may have been cached (on a correct cache this Get misses and changes nothing)
+		if !cr.bad {
+			if v, ok := cr.cache.Get(k); ok {
+				cr.viol("C16/cache/take/failed-load-cached", fmt.Sprintf("Take(%s): the loader failed, yet the key is cached afterwards with %v", k, v))
+			}
+		}
 	default:
 		cr.takeLoads++
 		if gotErr != nil || gotV != any(loadV) {
@@ -298,7 +303,7 @@ func cacheHistory(c *kit.Case, r *kit.Rand, sample bool) {
 
 func cacheFamilies(t *testing.T) {
 	const b = 10
-	kit.Run(t, "C16", "cache-random", kit.N(160, 3000), func(c *kit.Case) {
+	kit.Run(t, "C16", "cache-random", kit.N(400, 3200), func(c *kit.Case) {
 		for h := 0; h < b && !c.Violated(); h++ {
 			cacheHistory(c, c.R, c.Index == 0 && h < 2)
 		}
